@@ -22,7 +22,7 @@
    CellMax is never decremented again.                                                               *)
 EXTENDS Integers, Sequences, FiniteSets, TLC, Json
 
-CONSTANTS Keys, M, K, Tables, Counting, CellMax, TotMax, Amts, MaxN, MaxDepth, Whos, Channels, MaxReloads, MaxAdopt
+CONSTANTS Keys, M, K, Tables, Counting, CellMax, TotMax, Amts, MaxN, MaxDepth, Whos, Channels, MaxReloads, MaxAdopt, Queries
 
 VARIABLES pos, fs, hist, last
 vars == <<pos, fs, hist, last>>
@@ -94,6 +94,8 @@ Ops == {<<"add", w, k, a>> : w \in Whos, k \in Keys, a \in Amts}
        \cup {<<"clear", w, "", 0>> : w \in Whos}
        \cup {<<"rt", w, c, 0>> : w \in Whos, c \in Channels}          \* export + load through channel c: identity on the abstract state
        \cup {<<op, w, "", 0>> : op \in {"uni", "int"}, w \in Whos}
+       \cup (IF Queries THEN {<<"chk", w, k, 0>> : w \in Whos, k \in Keys} \cup {<<"est", w, "", 0>> : w \in Whos} ELSE {})
+          \* queries (check; estimate_elements / current rate / str) are ACTIONS that change nothing (C19); see CountMin.tla
 
 Init == /\ pos \in Tables
         /\ fs = [w \in {"A", "B"} |-> EmptyF]
@@ -104,6 +106,7 @@ Do(o) == LET w == o[2]  f == fs[w] IN
               [] o[1] = "rem" -> /\ LegitRem(f, o[3], o[4]) /\ ~f.nest      \* amounts were never added to an adopted result: no removal there
                                  /\ LET r == RemF(f, o[3], o[4]) IN fs' = [fs EXCEPT ![w] = r.f] /\ last' = [o |-> o, ret |-> r.ret]
               [] o[1] = "clear" -> fs' = [fs EXCEPT ![w] = [EmptyF EXCEPT !.rl = f.rl, !.ad = f.ad]] /\ last' = [o |-> o, ret |-> -1]
+              [] o[1] \in {"chk", "est"} -> fs' = fs /\ last' = [o |-> o, ret |-> -1]
               [] o[1] \in {"uni", "int"} -> /\ f.ad < MaxAdopt
                                             /\ fs' = [fs EXCEPT ![w] = Adopted(fs["A"], fs["B"], f, o[1])] /\ last' = [o |-> o, ret |-> -1]
               [] o[1] = "rt" -> /\ f.rl < MaxReloads
